@@ -624,6 +624,12 @@ where
                 set_current_route_locale(locale);
                 StaticSegment(locale.as_str())
                     .test(path)
+                    // the prefix must be the whole first segment and nothing but the locale name
+                    .filter(|partial_path_match| {
+                        let remaining = partial_path_match.remaining();
+                        partial_path_match.matched().trim_start_matches('/') == locale.as_str()
+                            && (remaining.is_empty() || remaining.starts_with('/'))
+                    })
                     .and_then(|partial_path_match| {
                         let remaining = partial_path_match.remaining();
                         let matched = partial_path_match.matched();
